@@ -301,9 +301,12 @@ def leb_index(R):
         lo, hi = int(model.get("lo", 0)), int(model.get("hi", 0))
         return script("""
             import io, nsl.WebAssembly as W
-            out = io.BytesIO(); W.Memory({{lo}}, {{hi}}).WriteTo(out); bs = out.getvalue()
+            try:
+                out = io.BytesIO(); W.Memory({{lo}}, {{hi}}).WriteTo(out); bs = out.getvalue()
+            except BaseException as e:
+                print('Memory(%d, %d).WriteTo raised' % ({{lo}}, {{hi}}), type(e).__name__, e); print('REPLAY-CONFIRMED'); raise SystemExit
             print('Memory(%d, %d) written as' % ({{lo}}, {{hi}}), bs.hex(), '; limits with a maximum are 01 <min> <max>')
-            if bs[0] != 1: print('REPLAY-CONFIRMED')
+            if len(bs) < 3 or bs[0] != 1: print('REPLAY-CONFIRMED')
             """, lo=lo, hi=hi)
 
     verify(R, "C19.leb.index", W + "::Memory.WriteTo", runm, replaym, label="memory-minmax")
@@ -523,8 +526,13 @@ def frame(R):
                     out = io.BytesIO(); sec.WriteTo(out); bs = out.getvalue()
                     if bs:
                         size, p = udec(bs, 1); cnt, q = udec(bs, p)
-                        print({{sname}}, sizes, 'id', bs[0], 'size field', size, 'actual payload', len(bs) - p, 'count', cnt)
-                        if size != len(bs) - p or cnt != len(sizes): print('REPLAY-CONFIRMED')
+                        def ulen(v):
+                            n = 1
+                            while v >= 128: v >>= 7; n += 1
+                            return n
+                        expected = (q - p) + sum(n + (ulen(n) if {{sname}} == 'CodeSection' else 0) for n in sizes)
+                        print({{sname}}, sizes, 'id', bs[0], 'size field', size, 'actual payload', len(bs) - p, 'count', cnt, 'payload expected from the entries', expected)
+                        if size != len(bs) - p or cnt != len(sizes) or len(bs) - p != expected: print('REPLAY-CONFIRMED')
                     elif sizes:
                         print({{sname}}, 'wrote nothing for', sizes); print('REPLAY-CONFIRMED')
                     """.replace("{{dec}}", leb.PY_DECODERS), sname=sname, add=add, sizes=sizes)
